@@ -9,8 +9,11 @@ package cache
 // downstream.
 
 import (
+	"encoding/json"
 	"fmt"
 	"math/rand"
+	"os"
+	"path/filepath"
 	"sort"
 	"strings"
 	"testing"
@@ -133,18 +136,87 @@ func (w *vC04World) genScript(r *rand.Rand, i int) *vC04Script {
 	return sc
 }
 
+// vC04TreePlan is one fixed scenario of corpus/C04/tree.jsonl: what each name of the world
+// is scripted with, and the steps (queries on given routes, clock steps, purges).
+type vC04TreePlan struct {
+	Name  string `json:"name"`
+	Names []struct {
+		Shape   string `json:"shape"`  // addr | alias | alias+addr | nx-soa | nodata-soa | nx-bare | nodata-bare | servfail
+		TTL     uint32 `json:"ttl"`    // every record of the answer
+		Target  int    `json:"target"` // alias target: index into names
+		SoaMin  uint32 `json:"soa_min"`
+		LeaseMs int64  `json:"lease_ms"` // 0: no lease
+	} `json:"names"`
+	Steps []struct {
+		Op    string `json:"op"` // ask | shift | purge
+		Name  int    `json:"name"`
+		Route int    `json:"route"`
+		Ms    int64  `json:"ms"`
+	} `json:"steps"`
+}
+
+func (w *vC04World) planScript(plan *vC04TreePlan, i int) *vC04Script {
+	ps := plan.Names[i]
+	name := w.names[i]
+	m := new(dns.Msg)
+	m.SetQuestion(name, dns.TypeA)
+	m.Response = true
+	hdr := func(n string, t uint16) dns.RR_Header {
+		return dns.RR_Header{Name: n, Rrtype: t, Class: dns.ClassINET, Ttl: ps.TTL}
+	}
+	switch ps.Shape {
+	case "addr":
+		m.Answer = append(m.Answer, &dns.A{Hdr: hdr(name, dns.TypeA), A: []byte{192, 0, 2, byte(10 * i)}})
+	case "alias":
+		m.Answer = append(m.Answer, &dns.CNAME{Hdr: hdr(name, dns.TypeCNAME), Target: w.names[ps.Target]})
+	case "alias+addr":
+		m.Answer = append(m.Answer, &dns.CNAME{Hdr: hdr(name, dns.TypeCNAME), Target: w.names[ps.Target]})
+		m.Answer = append(m.Answer, &dns.A{Hdr: hdr(w.names[ps.Target], dns.TypeA), A: []byte{192, 0, 2, 77}})
+	case "nx-soa":
+		m.Rcode = dns.RcodeNameError
+		m.Ns = append(m.Ns, vC04SOA(vC04Zone, ps.TTL, ps.SoaMin))
+	case "nodata-soa":
+		m.Ns = append(m.Ns, vC04SOA(vC04Zone, ps.TTL, ps.SoaMin))
+	case "nx-bare":
+		m.Rcode = dns.RcodeNameError
+	case "nodata-bare":
+	case "servfail":
+		m.Rcode = dns.RcodeServerFailure
+	default:
+		panic("corpus tree.jsonl: unknown shape " + ps.Shape)
+	}
+	sc := &vC04Script{resp: m, cutKey: uint64(100 + i)}
+	if ps.LeaseMs != 0 {
+		sc.hasCut, sc.cut = true, w.env.k.now()+ps.LeaseMs*int64(time.Millisecond)
+	}
+	return sc
+}
+
 func TestVerifC04Tree(t *testing.T) {
 	out := vC04Open(t)
 	defer out.f.Close()
 	r := rand.New(rand.NewSource(int64(vC04EnvInt("VERIF_SEED", 1)) + 4043))
 	n := vC04EnvInt("VERIF_N", 700)
 	emitted := 0
+	// fixed regression inputs first (seeded change C04-2, mutations M6, M11, ...)
+	if raw, err := os.ReadFile(filepath.Join(os.Getenv("VERIF_CORPUS"), "tree.jsonl")); err == nil {
+		for _, line := range strings.Split(string(raw), "\n") {
+			if line = strings.TrimSpace(line); line == "" || strings.HasPrefix(line, "#") {
+				continue
+			}
+			plan := new(vC04TreePlan)
+			if err := json.Unmarshal([]byte(line), plan); err != nil {
+				t.Fatalf("corpus tree.jsonl: %v", err)
+			}
+			emitted += vC04TreeHistory(out, r, 1<<20, plan)
+		}
+	}
 	for emitted < n {
-		emitted += vC04TreeHistory(out, r, n-emitted)
+		emitted += vC04TreeHistory(out, r, n-emitted, nil)
 	}
 }
 
-func vC04TreeHistory(out *vC04Out, r *rand.Rand, budget int) int {
+func vC04TreeHistory(out *vC04Out, r *rand.Rand, budget int, plan *vC04TreePlan) int {
 	env := vC04NewEnv(0, 0, 600)
 	defer env.close()
 	k := env.k
@@ -153,16 +225,23 @@ func vC04TreeHistory(out *vC04Out, r *rand.Rand, budget int) int {
 	env.c.store.rfc8198Disabled = true
 	w := &vC04World{env: env, ids: map[string]int{strings.ToLower(vC04Zone): 50}}
 	nn := 3 + r.Intn(4)
+	if plan != nil {
+		nn = len(plan.Names)
+	}
 	for i := 0; i < nn; i++ {
 		name := fmt.Sprintf("n%d.%s", i+1, vC04Zone)
 		w.names = append(w.names, name)
 		w.ids[name] = i + 1
 	}
 	for i := range w.names {
-		env.stub.script[w.names[i]] = w.genScript(r, i)
+		if plan != nil {
+			env.stub.script[w.names[i]] = w.planScript(plan, i)
+		} else {
+			env.stub.script[w.names[i]] = w.genScript(r, i)
+		}
 	}
 	// some worlds also hold subtree cuts (synthesised denials) at one or two names
-	cutWorld := r.Intn(3) == 0
+	cutWorld := r.Intn(3) == 0 && plan == nil
 	var cutNames []string
 	recordCut := func() {
 		name := w.names[1+r.Intn(nn-1)]
@@ -179,8 +258,27 @@ func vC04TreeHistory(out *vC04Out, r *rand.Rand, budget int) int {
 		recordCut()
 	}
 	emitted := 0
-	for op, ops := 0, 6+r.Intn(14); op < ops && emitted < budget; op++ {
-		switch x := r.Intn(10); {
+	nops := 6 + r.Intn(14)
+	if plan != nil {
+		nops = len(plan.Steps)
+	}
+	for op := 0; op < nops && emitted < budget; op++ {
+		x := r.Intn(10)
+		if plan != nil {
+			x = 9 // a query, unless the step says otherwise
+			switch st := plan.Steps[op]; st.Op {
+			case "shift":
+				vC04Shift(env.c, k, time.Duration(st.Ms)*time.Millisecond)
+				continue
+			case "purge":
+				env.c.Purge(dns.Question{Name: w.names[st.Name], Qtype: dns.TypeA, Qclass: dns.ClassINET})
+				continue
+			case "ask":
+			default:
+				panic("corpus tree.jsonl: unknown op " + st.Op)
+			}
+		}
+		switch {
 		case x == 0:
 			i := r.Intn(nn)
 			env.stub.script[w.names[i]] = w.genScript(r, i)
@@ -254,6 +352,9 @@ func vC04TreeHistory(out *vC04Out, r *rand.Rand, budget int) int {
 			qname = w.names[0]
 		}
 		route := []int{0, 0, 1, 2, 2, 3}[r.Intn(6)]
+		if plan != nil {
+			qname, route = w.names[plan.Steps[op].Name], plan.Steps[op].Route
+		}
 		do := false
 		if cutWorld {
 			// the synthesised denial is shaped by DO; sub-queries always set it, so the
@@ -351,6 +452,9 @@ func vC04TreeHistory(out *vC04Out, r *rand.Rand, budget int) int {
 			fail = cutFail
 		}
 		kk := fmt.Sprintf("tree-route%d-hops%d", route, len(rep.stubbed))
+		if plan != nil {
+			kk = "corpus-" + kk
+		}
 		if cutWorld {
 			kk += "-cuts"
 		}
